@@ -79,6 +79,63 @@ class Hang(Exception):
     """the poll would block forever (no deadline, nothing in flight)"""
 
 
+class Blocked(BaseException):
+    """the real code did not come back from one call within the bound (a lock that is never released, a wait that is
+    never woken): an observation (`BLOCKED`), never a hang of the check"""
+
+
+class Watchdog:
+    """Every call into the real code runs under a bound without paying for a thread per call: a periodic SIGALRM looks at
+    a progress counter; when the harness has been inside ONE real-code call for two ticks, `Blocked` is raised in the main
+    thread (lock acquisition and condition waits are interruptible).  Outside real-code calls (driver subprocess, file
+    I/O) nothing is raised."""
+    TICK = 2.5
+    progress = 0
+    inside = False
+    seen = (-1, 0)
+    installed = False
+
+    @classmethod
+    def install(cls):
+        import signal
+        import threading
+        if cls.installed or threading.current_thread() is not threading.main_thread():
+            return
+        def tick(_sig, _frm):
+            if not cls.inside:
+                cls.seen = (-1, 0)
+                return
+            if cls.seen[0] == cls.progress:
+                cls.seen = (cls.progress, cls.seen[1] + 1)
+                if cls.seen[1] >= 2:
+                    cls.seen = (-1, 0)
+                    raise Blocked()
+            else:
+                cls.seen = (cls.progress, 0)
+        signal.signal(signal.SIGALRM, tick)
+        signal.setitimer(signal.ITIMER_REAL, cls.TICK, cls.TICK)
+        cls.installed = True
+
+    @classmethod
+    def enter(cls):
+        cls.progress += 1
+        cls.inside = True
+
+    @classmethod
+    def leave(cls):
+        cls.inside = False
+
+
+def guarded_call(fn):
+    """fn() on the real code under the watchdog"""
+    Watchdog.install()
+    Watchdog.enter()
+    try:
+        return fn()
+    finally:
+        Watchdog.leave()
+
+
 class BadSequence(Exception):
     """the event sequence itself is ill-formed (a wrapper called before it was made); never a finding"""
 
@@ -145,6 +202,8 @@ class ScriptChannel:
     def recv(self):
         self.idle_polls = 0
         _at, msg = self.queue.pop(0)
+        self.sim.recvlog.append((self.sim.now_ticks(), msg[0], msg[1] if msg[0] == "O" else 0,
+                                 msg[1] if msg[0] == "R" else None))
         return self.sim.encode(msg)
 
     def send(self, data):
@@ -192,8 +251,10 @@ class Sim:
         import rpyc.lib
         from rpyc.core import consts
         from rpyc.core.service import VoidService
+        Watchdog.install()
         self.consts = consts
         self.unit = unit
+        self.recvlog = []              # (instant the message was taken, kind "R"/"O", duration, ordinal or None)
         self.seqs = []                 # real sequence number of the k-th request issued through this harness
         self.clock = Clock(t0 * unit)
         self.saved_time = rpyc.lib.time
@@ -284,10 +345,13 @@ class Sim:
         from value / sync_request only), anything else `raised:<class>`; nothing propagates into the harness."""
         from rpyc.core.async_ import AsyncResultTimeout
         c = tok[0]
+        Watchdog.enter()
         try:
             out = self._event(tok)
         except BadSequence:
             raise
+        except Blocked:
+            out = "BLOCKED"
         except Hang:
             out = "HANG"
         except Spin:
@@ -300,6 +364,8 @@ class Sim:
                 out = "exc:" + self._payload(ex)
             else:
                 out = "raised:" + type(ex).__name__
+        finally:
+            Watchdog.leave()
         res = self.res
         self.chan.idle_polls = 0
         if res is not None and res._is_ready and self.ra_for is not res and self.own_reply_times():
@@ -336,6 +402,10 @@ class Sim:
             out = "-"
         elif c == "U":
             self.conn.serve(self.secs(parse_tau(tok[1:])))
+            self.chan.idle_polls = 0
+            out = "-"
+        elif c == "P":
+            self.conn.poll_all(self.secs(parse_tau(tok[1:])))
             self.chan.idle_polls = 0
             out = "-"
         elif c == "V":
@@ -563,10 +633,17 @@ def run_call_case(case):
             sim.res.add_callback(o)
         raised = "F"
         res = sim.res
+        Watchdog.enter()
         try:
             sim.conn._dispatch(sim.encode(("R", 0, exc, 7)))
         except RuntimeError:
             raised = "T"
+        except Blocked:
+            return "BLOCKED: the dispatch of the reply did not come back (log so far [%s])" % ",".join(log)
+        except Exception as ex:  # noqa
+            raised = "!" + type(ex).__name__
+        finally:
+            Watchdog.leave()
         sim.res = res          # (a callback that issued a request of its own must not change which result is looked at)
         line = "st %s %s %s cb[%s] log[%s] raised%s" % (
             tri(res._is_ready), tri(res._is_exc), sim._payload(res._obj),
@@ -756,6 +833,25 @@ def reuse_tokens(kind, tau, calls, callbacks=False):
     return toks
 
 
+def traffic_sequences():
+    """sustained unrelated inbound traffic (a stream of requests from the peer, each keeping the serving thread busy for a
+    tick or two, one becoming readable every tick or all at once) around the reply: `poll_all(t)` by unrelated activity,
+    and the `ready` / `error` / `wait` / `value` of the result"""
+    out = []
+    for tau in TIMEOUTS:
+        for dur in (0, 1, 2):
+            for spacing in (0, 1):
+                for n in (2, 5):
+                    for reply_at in (0, 2, None):
+                        traffic = ["S%d:O%d" % (i * spacing, dur) for i in range(n)]
+                        if reply_at is not None:
+                            traffic.insert(min(reply_at, len(traffic)), "S%d:RF7" % (reply_at * spacing))
+                        for ops in (["P0", "x", "P0"], ["P1", "r"], ["P3", "P0", "v"], ["r", "r", "r", "e"], ["r", "w"],
+                                    ["T1", "P2", "r", "P0", "x"], ["e", "P5", "v"]):
+                            out.append(["X" + tau_tok(tau)] + traffic + ops)
+    return out
+
+
 def forget_sequences():
     """fire-and-forget with completion callbacks: register 1-2 callbacks, the application drops the result (D), then the
     reply is dispatched directly / taken from the channel by a later serve, before or after the expiry"""
@@ -833,7 +929,7 @@ def gen_tok(r):
     if k == 8:
         return "A%s%d" % (r.choice("TF"), r.range(1, 9))
     if k == 9:
-        return "V"
+        return r.choice(["V", "V", "P0", "P%d" % r.range(1, 4), "U%d" % r.below(3)])
     return r.choice(["r", "e", "x", "v", "w", "w", "v", "r"])
 
 
@@ -922,14 +1018,19 @@ def run_scenario_simnet(kind, tau, pre, k, post, ops):
                 return fmt_t(net.clock.now - t0)
 
             def waitlike(fn):
+                Watchdog.enter()
                 try:
                     return fn()
+                except Blocked:
+                    return "BLOCKED"
                 except AsyncResultTimeout:
                     return "TO"
                 except Spin:
                     return "SPIN"
                 except Exception as ex:  # noqa
                     return "raised:" + type(ex).__name__
+                finally:
+                    Watchdog.leave()
             if kind == "sync":
                 ca._config["sync_request_timeout"] = tau
                 out.append(waitlike(lambda: "val:%s" % work(pre, cbarg, post)) + "@" + rel())
@@ -1061,14 +1162,19 @@ def run_reuse_simnet(steps):
                     r.add_callback(lambda _r, k=k: cblog.append("%d@%s" % (k + 1, fmt_t(net.clock.now - t0))))
 
             def guarded(fn):
+                Watchdog.enter()
                 try:
                     return fn()
+                except Blocked:
+                    return "BLOCKED"
                 except AsyncResultTimeout:
                     return "TO"
                 except Spin:
                     return "SPIN"
                 except Exception as ex:  # noqa
                     return "raised:" + type(ex).__name__
+                finally:
+                    Watchdog.leave()
             for st in steps:
                 k = st[0]
                 if k in "WKQ":
@@ -1130,7 +1236,8 @@ def correspondence(ctx):
               "{reply, tick 1, tick 5, add callback x2, ready, error, expired, value, wait} of the stated length "
               "(each at most once; callbacks numbered by registration), ALL sequences with up to 3 repetitions of "
               "length <= 3, plus seeded sequences of length <= 14 with delayed replies, busy unrelated requests, "
-              "re-arming, duplicate replies, serve(0), sync_request/timed/async_request(timeout=); a grid of requests "
+              "re-arming, duplicate replies, serve(0), serve(t), poll_all(t), sync_request/timed/async_request(timeout=); "
+              "sustained unrelated inbound traffic around the reply under poll_all(t) / ready / wait; a grid of requests "
               "issued late or repeatedly (a timed() wrapper made at t0 and called 2-3 times after delays 0/<tau/=tau/>tau, "
               "async_request(timeout=) repeated, sync_request on a connection older than its timeout; each reply before / "
               "at / after that call's own deadline); fire-and-forget (callbacks registered, the application drops its only "
@@ -1224,6 +1331,9 @@ def correspondence(ctx):
                     flush(True)
             flush(True)
         ctx.log("enumeration: %d sequences on the real code and the model in %.1fs" % (n_enum, _walltime.time() - t_start))
+        for toks in traffic_sequences():
+            add(0, toks, run_impl(0, toks))
+            c.count("sustained-traffic:poll_all/ready")
         for toks in forget_sequences():
             add(0, toks, run_impl(0, toks))
             c.count("result-dropped-by-the-application")
@@ -1373,6 +1483,7 @@ def _oracle_sequence(t0, toks, tolerate_rearm, state):
             called_at = sim.clock.now
             n_busy = len(sim.busy)
             n_replies = len(sim.reply_times)
+            n_recv = len(sim.recvlog)
             was_ready = sim.res._is_ready if c not in "YQZK" and sim.res is not None else False
             log_before = list(sim.cblog)
             obs = sim.apply(tok).rsplit("@", 1)[0]
@@ -1407,6 +1518,29 @@ def _oracle_sequence(t0, toks, tolerate_rearm, state):
                 if obs.startswith("raised:"):
                     return "event %d (%s): raised %s" % (i, tok, obs[7:])
                 continue
+            if obs == "BLOCKED":
+                return "event %d (%s): the call did not come back (blocked for ever)" % (i, tok)
+            if c in "Pre":
+                # poll_all(t) - and `ready`/`error`, which poll with t = 0 - serve what arrives within the interval: a
+                # further message is taken only while the interval is not over, so the call returns no later than the
+                # end of the interval or of the message it was serving then; `ready` returns once its reply is dispatched
+                taken = sim.recvlog[n_recv:]
+                if c == "P":
+                    t_ = parse_tau(tok[1:])
+                    end = None if t_ is None or t_ < 0 else called_at + t_
+                else:
+                    end = called_at
+                if end is not None:
+                    for j in range(1, len(taken)):
+                        prev_end = taken[j - 1][0] + taken[j - 1][2]
+                        if prev_end >= end:
+                            return ("event %d (%s): called at %s with the interval ending at %s, it took a further message at "
+                                    "%s although the interval was over (sustained traffic keeps it serving)" % (
+                                        i, tok, fmt_t(called_at), fmt_t(end), fmt_t(taken[j][0])))
+                    last_end = max([end] + [t0_ + d_ for t0_, _k, d_, _o in taken])
+                    if obs != "HANG" and now > last_end:
+                        return "event %d (%s): returned at %s, later than the interval (%s) and the message being served" % (
+                            i, tok, fmt_t(now), fmt_t(end))
             if obs.startswith("raised:"):
                 return ("event %d (%s): raised %s; an operation on a result only ever returns, raises the stored exception "
                         "(value) or the timeout error (wait/value)" % (i, tok, obs[7:]))
@@ -1612,7 +1746,7 @@ def signature_of(msg):
     if REARM_SIG in msg:
         return REARM_SIG
     m = msg.split("): ", 1)[-1]
-    for key in ("dropped its reference", "raised", "before the expiry", "not accepted", "callbacks", "callback", "changed", "became ready", "timeout raised",
+    for key in ("blocked for ever", "interval was over", "later than the interval", "dropped its reference", "raised", "before the expiry", "not accepted", "callbacks", "callback", "changed", "became ready", "timeout raised",
                 "timeout error without", "while pending", "expired result", "ready result", "sync_request"):
         if key in m:
             return "c15:" + key.replace(" ", "-")
@@ -1655,7 +1789,7 @@ def oracle_search(ctx, corr, broken):
             cands.append((int(parts[0]), parts[1:]))
         except ValueError:
             pass
-    cands += [(0, s) for s in boundary_sequences()] + [(0, s) for s in forget_sequences()] + [(0, s) for s in reuse_sequences()]
+    cands += [(0, s) for s in boundary_sequences()] + [(0, s) for s in traffic_sequences()] + [(0, s) for s in forget_sequences()] + [(0, s) for s in reuse_sequences()]
     for t0, toks in cands:
         msg = check(t0, toks)
         if msg:
